@@ -803,6 +803,15 @@ fn c10_case(prop: &str, doc: &str, kinds: &[u64], tag: &str) -> CaseRec {
     let mut fails: Vec<(String, String)> = vec![];
     let r = guarded(|| MarkdownUpdateGenerator::default().generate_update(doc, &refs));
     let impl_out = c10_canon(&r);
+    // guard `GenOK` of C10_idempotent / C10_same_commands: every generated text ends in LF and
+    // does not start with a comment line
+    for o in &refs {
+        if let Some(t) = c10_generated_text(o) {
+            if !t.ends_with('\n') || t.lines().next().map_or(true, |l| l.starts_with('#')) {
+                fails.push(("C10:generated-text-not-GenOK".into(), format!("{:?}", t)));
+            }
+        }
+    }
     let segs = c10_ref_segments(doc);
     let n_scrut = segs.iter().filter(|s| matches!(s, RefSeg::Scrut { .. })).count();
     let n_code = segs.iter().filter(|s| matches!(s, RefSeg::Scrut { body, .. } if body.len() > c10_comments(body).len())).count();
